@@ -545,4 +545,204 @@ def mon_c17(cfg, steps):
     return out
 
 
-MONITORS = {"C04": mon_c04, "C15": mon_c15, "C03": mon_c03, "C08": mon_c08, "C10": mon_c10, "C11": mon_c11, "C12": mon_c12, "C05": mon_c05, "C06": mon_c06, "C17": mon_c17}
+# ---------------- C13 ----------------
+def parse_route(t):
+    inner = t[1:-1]
+    if not inner:
+        return []
+    r = []
+    for h in inner.split(","):
+        p, i, o = h.split("/")
+        r.append((int(p), unhex(i).decode(), unhex(o).decode()))
+    return r
+
+
+def parse_routes(t):
+    inner = t[1:-1]
+    return [parse_route(x) for x in inner.split(";")] if inner else []
+
+
+def tstate(s):
+    d = {}
+    for o in s.lines:
+        if o[0] == "ts.owner":
+            d["admin"] = None if o[1] == "-" else unhex(o[1]).decode()
+        elif o[0] == "ts.cfg":
+            d["trader"] = unhex(o[1]).decode(); d["routes"] = parse_routes(o[2])
+    return d
+
+
+def mon_c13(cfg, steps):
+    out = []
+    cur = {}
+    me = unhex(cfg[2]).decode()
+    for s in steps:
+        t = s.optoks
+        if t[0] == "tinst":
+            if s.res == "ok":
+                cur = tstate(s)
+            continue
+        if t[0] != "texec":
+            continue
+        pre = cur
+        if s.res == "ok" and not s.aborted:
+            cur = tstate(s) or cur
+        if s.res != "ok" or not pre:
+            continue
+        who = unhex(t[2]).decode("utf-8", "replace"); k = t[3]
+        if k in ("swapin", "swapout"):
+            route = parse_route(t[4]); d, a = t[5].split(":"); d = unhex(d).decode(); a = int(a); lim = int(t[6])
+            if who != pre["trader"]:
+                out.append({"step": s.idx, "what": "%s executed for %s, the trader is %s" % (k, who, pre["trader"])})
+            if not route or route not in pre["routes"]:
+                out.append({"step": s.idx, "what": "%s accepted route %r which is not identical to an allow-listed route %r" % (k, route, pre["routes"])}); continue
+            if (k == "swapin" and route[0][1] != d) or (k == "swapout" and route[-1][2] != d):
+                out.append({"step": s.idx, "what": "%s accepted coin denom %s for route %r" % (k, d, route)})
+            if len(s.msgs) != 1 or s.msgs[0].get("facet") != "msg:swap":
+                out.append({"step": s.idx, "what": "%s emitted %r" % (k, [m.get("facet") for m in s.msgs])}); continue
+            m = s.msgs[0]; f = pb_parse(m["value"])
+            sender = pb_get(f, 1).decode()
+            hops = [(pb_get(pb_parse(h), 1, 0), pb_get(pb_parse(h), 2).decode()) for h in pb_all(f, 2)]
+            if k == "swapin":
+                coin = pb_coin(pb_get(f, 3)); limit = pb_get(f, 4).decode()
+                exp_hops = [(p, o) for (p, i, o) in route]; url = "/osmosis.poolmanager.v1beta1.MsgSwapExactAmountIn"
+            else:
+                coin = pb_coin(pb_get(f, 4)); limit = pb_get(f, 3).decode()
+                exp_hops = [(p, i) for (p, i, o) in route]; url = "/osmosis.poolmanager.v1beta1.MsgSwapExactAmountOut"
+            if m["url"] != url or sender != me or hops != exp_hops or coin != (d, a) or limit != str(lim):
+                out.append({"step": s.idx, "what": "%s message differs from the request: url %s sender %s hops %r coin %r limit %s (requested hops %r coin %r limit %d)" % (k, m["url"], sender, hops, coin, limit, exp_hops, (d, a), lim)})
+        elif k == "spend":
+            d, a = t[4].split(":"); d = unhex(d).decode(); a = int(a); rc = unhex(t[5]).decode("utf-8", "replace"); ch = None if t[6] == "-" else unhex(t[6]).decode()
+            if who != pre["admin"]:
+                out.append({"step": s.idx, "what": "SpendFunds executed for non-admin %s" % who})
+            if len(s.msgs) != 1:
+                out.append({"step": s.idx, "what": "SpendFunds emitted %d messages" % len(s.msgs)}); continue
+            m = s.msgs[0]
+            if ch is None:
+                if not b32.valid_addr(rc, "osmo") or m["facet"] != "msg:bank" or m.get("to") != rc or (m.get("denom"), m.get("amount")) != (d, a):
+                    out.append({"step": s.idx, "what": "local spend of %d%s to %s emitted %s to %s of %s%s" % (a, d, rc, m["facet"], m.get("to"), m.get("amount"), m.get("denom"))})
+            else:
+                if not b32.valid_addr(rc, "celestia") or m["facet"] != "msg:transfer" or m.get("receiver") != rc or (m.get("denom"), m.get("amount")) != (d, a) or m.get("channel") != ch or m.get("sender") != me:
+                    out.append({"step": s.idx, "what": "IBC spend of %d%s to %s over %s emitted %s to %s of %s%s" % (a, d, rc, ch, m["facet"], m.get("receiver"), m.get("amount"), m.get("denom"))})
+        elif k == "updcfg":
+            if who != pre["admin"]:
+                out.append({"step": s.idx, "what": "UpdateConfig executed for non-admin %s" % who})
+    return out
+
+
+# ---------------- C14 ----------------
+import re as _re
+
+
+def wf_prefix(p):
+    return 1 <= len(p.encode()) <= 83 and all(33 <= b <= 126 for b in p.encode()) and not any("A" <= ch <= "Z" for ch in p)
+
+
+def config_problems(st):
+    """independent re-validation of a stored configuration against the clauses of the property"""
+    bad = []
+    n, p, f = st["native"], st["protocol"], st["fee"]
+    for nm, px in (("native account prefix", n["prefix"]), ("validator prefix", n["valprefix"]), ("protocol prefix", p["prefix"])):
+        if not wf_prefix(px):
+            bad.append("%s %r is not a valid lower-case bech32 prefix" % (nm, px))
+    for v in n["validators"]:
+        if not b32.valid_addr(v, n["valprefix"]):
+            bad.append("validator %r is not a valid bech32 address under %r" % (v, n["valprefix"]))
+    if len(set(n["validators"])) != len(n["validators"]):
+        bad.append("a validator is listed twice")
+    for nm, a in (("staker", n["staker"]), ("reward collector", n["collector"])):
+        if not b32.valid_addr(a, n["prefix"]):
+            bad.append("%s %r is not a valid bech32 address under %r" % (nm, a, n["prefix"]))
+    if p["oracle"] is not None and not b32.valid_addr(p["oracle"], p["prefix"]):
+        bad.append("oracle %r is not valid under %r" % (p["oracle"], p["prefix"]))
+    if f["treasury"] is not None and not b32.valid_addr(f["treasury"], p["prefix"]):
+        bad.append("treasury %r is not valid under %r" % (f["treasury"], p["prefix"]))
+    for m in st["monitors"]:
+        if not b32.valid_addr(m, p["prefix"]):
+            bad.append("monitor %r is not valid under %r" % (m, p["prefix"]))
+    if len(set(st["monitors"])) != len(st["monitors"]):
+        bad.append("a monitor is listed twice")
+    mm = _re.fullmatch(r"channel-([0-9]+)", p["channel"])
+    if not mm or int(mm.group(1)) >= 2 ** 64:
+        bad.append("channel %r is not channel-<n>" % p["channel"])
+    if not (p["denom"].startswith("ibc/") and len(p["denom"].encode()) == 68):
+        bad.append("staked-asset denom %r is not ibc/ + 64 characters" % p["denom"])
+    if not (len(n["denom"]) > 3 and all(ch.isascii() and ch.isalpha() for ch in n["denom"])):
+        bad.append("native token denom %r is not alphabetic" % n["denom"])
+    return bad
+
+
+def mon_c14(cfg, steps):
+    out = []
+    for s in steps:
+        t = s.optoks
+        if t[0] == "fn" and s.fn:
+            a = unhex(t[2]).decode("utf-8", "replace")
+            if t[1] == "vchan":
+                mm = _re.fullmatch(r"channel-([0-9]+)", a)
+                exp = "1" if (mm and int(mm.group(1)) < 2 ** 64) else "0"
+                if s.fn[0] != exp:
+                    out.append({"step": s.idx, "what": "channel %r %s by validation" % (a, "accepted" if s.fn[0] == "1" else "refused")})
+            elif t[1] == "vaddr":
+                px = unhex(t[3]).decode("utf-8", "replace")
+                exp = "1" if b32.valid_addr(a, px) else "0"
+                if s.fn[0] != exp:
+                    out.append({"step": s.idx, "what": "address %r under prefix %r %s" % (a, px, "accepted" if s.fn[0] == "1" else "refused")})
+            elif t[1] == "vprefix":
+                ok = 1 <= len(a.encode()) <= 83 and all(33 <= b <= 126 for b in a.encode()) and not (any("a" <= ch <= "z" for ch in a) and any("A" <= ch <= "Z" for ch in a))
+                exp = hx(a.lower()) if ok else "-"
+                if s.fn[0] != exp:
+                    out.append({"step": s.idx, "what": "prefix %r validated to %s, expected %s" % (a, s.fn[0], exp)})
+            elif t[1] == "vibc":
+                ok = a.startswith("ibc/") and len(a.encode()) == 68
+                if (s.fn[0] != "-") != ok:
+                    out.append({"step": s.idx, "what": "ibc denom %r %s" % (a, "accepted" if s.fn[0] != "-" else "refused")})
+            elif t[1] == "vdenom":
+                ok = len(a.encode()) > 3 and all(ch.isascii() and ch.isalpha() for ch in a)
+                if (s.fn[0] != "-") != ok:
+                    out.append({"step": s.idx, "what": "sub-denom %r %s" % (a, "accepted" if s.fn[0] != "-" else "refused")})
+        if t[0] == "inst" and s.res == "ok" and s.st:
+            for b in config_problems(s.st):
+                out.append({"step": s.idx, "what": "instantiate accepted a configuration where " + b})
+            sub = s.st["lst"].split("/")[-1]
+            if not (s.st["lst"] == "factory/%s/%s" % (unhex(cfg[2]).decode(), sub) and len(sub) > 3 and sub.isascii() and sub.isalpha()):
+                out.append({"step": s.idx, "what": "LST denom %r is not factory/<contract>/<alphabetic sub-denom>" % s.st["lst"]})
+        if t[0] == "exec" and s.res == "ok" and s.st and s.pre:
+            k = t[5]; pre = s.pre; st = s.st
+            if k == "updcfg":
+                for b in config_problems(st):
+                    # only sections that were supplied are re-validated by the contract
+                    out.append({"step": s.idx, "what": "UpdateConfig accepted a configuration where " + b}) if section_supplied(b, t) else None
+                if st["lst"] != pre["lst"] or st["stopped"] != pre["stopped"]:
+                    out.append({"step": s.idx, "what": "UpdateConfig changed the LST denom or the halted flag"})
+                for sec, tok in (("native", 6), ("protocol", 7), ("fee", 8), ("monitors", 9), ("batch_period", 10)):
+                    if t[tok] == "-" and st[sec] != pre[sec]:
+                        out.append({"step": s.idx, "what": "UpdateConfig without a %s section changed it" % sec})
+                for other in ("N", "L", "reward", "fees", "admin", "pending", "batches", "reqs", "pkts", "waits"):
+                    if st[other] != pre[other]:
+                        out.append({"step": s.idx, "what": "UpdateConfig changed %s" % other})
+            elif k in ("addval", "rmval"):
+                v = unhex(t[6]).decode("utf-8", "replace"); old = pre["native"]["validators"]; new = st["native"]["validators"]
+                exp = old + [v] if k == "addval" else [x for i2, x in enumerate(old) if not (x == v and i2 == old.index(v))]
+                if new != exp or not b32.valid_addr(v, pre["native"]["valprefix"]) or (k == "addval" and v in old) or (k == "rmval" and v not in old):
+                    out.append({"step": s.idx, "what": "%s %r: validators %r -> %r" % (k, v, old, new)})
+                ps = dict(pre); ps["native"] = dict(pre["native"], validators=None); ss = dict(st); ss["native"] = dict(st["native"], validators=None)
+                if ps != ss:
+                    out.append({"step": s.idx, "what": "%s changed more than the validator list" % k})
+    return out
+
+
+def section_supplied(problem, t):
+    nat, pro, fee, mon = t[6] != "-", t[7] != "-", t[8] != "-", t[9] != "-"
+    if any(w in problem for w in ("validator", "staker", "collector", "native")):
+        return nat
+    if any(w in problem for w in ("oracle", "channel", "staked-asset", "protocol prefix")):
+        return pro
+    if "treasury" in problem:
+        return fee
+    if "monitor" in problem:
+        return mon
+    return False
+
+
+MONITORS = {"C04": mon_c04, "C15": mon_c15, "C03": mon_c03, "C08": mon_c08, "C10": mon_c10, "C11": mon_c11, "C12": mon_c12, "C05": mon_c05, "C06": mon_c06, "C17": mon_c17, "C13": mon_c13, "C14": mon_c14}
